@@ -334,7 +334,8 @@ def strategy():
                 "marker_delays": draw(st.lists(st.sampled_from([0.0, 0.0, 0.02, 0.15]), min_size=1, max_size=3)),
                 "lat": draw(st.lists(st.sampled_from([0.0005, 0.001, 0.004, 0.015]), min_size=1, max_size=4)),
                 "chunks": draw(st.lists(st.sampled_from([0, 0, 3, 40]), min_size=1, max_size=3)),
-                "rng_seed": draw(st.integers(0, 2 ** 31))}
+                "rng_seed": draw(st.integers(0, 2 ** 31)),
+                "debug_log": draw(st.integers(0, 7)) == 0}
     return cases()
 
 
